@@ -249,8 +249,10 @@ def order_st(draw, own_refs, opp_refs, opp_insertion_ids, axis, kinds=None, meas
             if opp_refs else STALE
         order["measure"] = draw(st.sampled_from(measures))
     elif kind == "opposing_insertion":
-        order["insertion_id"] = draw(st.sampled_from(list(opp_insertion_ids) * 4 + [STALE])) \
-            if opp_insertion_ids else STALE
+        # unknown insertion ids include ids that name an ELEMENT of the opposing dimension
+        stale = [STALE] + [r for r in list(opp_refs)[:2] if r not in opp_insertion_ids]
+        order["insertion_id"] = draw(st.sampled_from(list(opp_insertion_ids) * 4 + stale)) \
+            if opp_insertion_ids else draw(st.sampled_from(stale))
         order["measure"] = draw(st.sampled_from(measures))
     elif kind == "marginal":
         order["marginal"] = draw(st.sampled_from(MARGINALS))
